@@ -546,6 +546,14 @@ func (e *Engine) genFunction(fn *ssa.Function) (fc *fnCtx, err error) {
 			// at the returns where they do (at least one, or the contract is rejected below)
 			aenv := *env
 			aenv.vars = fr.shadowed(env.vars, rr.instr.Block())
+			{
+				// the names of the results (r0.., result, err, named results) always mean the values returned
+				renv := &specEnv{vars: map[string]TV{}}
+				fr.bindResults(renv, rr.results)
+				for k, v := range renv.vars {
+					aenv.vars[k] = v
+				}
+			}
 			t, ok := func() (t string, ok bool) {
 				env := &aenv
 				defer func() {
@@ -560,6 +568,16 @@ func (e *Engine) genFunction(fn *ssa.Function) (fc *fnCtx, err error) {
 				return env.evalBool(en.Expr, en.Src), true
 			}()
 			if !ok {
+				if en.Strict {
+					res := fr.fn.Signature.Results()
+					if len(rr.results) > 0 && isErrorType(res.At(res.Len()-1).Type()) {
+						fr.oblige(rr.st, "post", label+".reached"+where, rr.instr.Pos(), fmt.Sprintf("(not (= (vtag %s) 0))", rr.results[len(rr.results)-1]),
+							"a return that does not pass the point where "+en.Src+" can be evaluated must return an error")
+					} else {
+						// no error result to blame: every return must pass that point
+						fr.oblige(rr.st, "post", label+".reached"+where, rr.instr.Pos(), "false", "every return must pass the point where "+en.Src+" can be evaluated")
+					}
+				}
 				continue
 			}
 			assertHits[i]++
@@ -1218,6 +1236,14 @@ func (fr *frame) namedAt(b *ssa.BasicBlock, strict bool) map[string]ssa.Value {
 				if !in.Block().Dominates(b) || (strict && in.Block() == b) {
 					continue
 				}
+				if in.Block() == b {
+					// in the block under execution only values already computed are in scope
+					if _, have := fr.regs[v]; !have {
+						if _, haveT := fr.tuples[v]; !haveT {
+							continue
+						}
+					}
+				}
 			}
 			ok = append(ok, v)
 		}
@@ -1268,9 +1294,9 @@ func (fr *frame) shadowed(vars map[string]TV, b *ssa.BasicBlock) map[string]TV {
 		out[k] = v
 	}
 	for k, v := range fr.localsAt(b) {
-		if old, ok := out[k]; !ok || (old.Typ != nil && v.Typ != nil && !types.Identical(old.Typ, v.Typ)) {
-			out[k] = v
-		}
+		// (a parameter that the body reassigns: body-level assertions see its current value, old(x) its entry value)
+		_ = types.Identical
+		out[k] = v
 	}
 	return out
 }
